@@ -30,7 +30,9 @@ Topos == <<"linear", "circular">>
 
 None == [k |-> "none"]
 Mods == {None, [k |-> "head", p |-> 0], [k |-> "tail", p |-> 0], [k |-> "hh", p |-> 0, q |-> 2], [k |-> "ht", p |-> 1, q |-> -1],
-         [k |-> "tt", p |-> -2, q |-> 0], [k |-> "head", p |-> 1]}
+         [k |-> "tt", p |-> -2, q |-> 0], [k |-> "head", p |-> 1],
+         \* offsets that equal the length of the first / last segment of the joined features
+         [k |-> "head", p |-> 2], [k |-> "head", p |-> 3], [k |-> "tail", p |-> -3], [k |-> "tail", p |-> -2], [k |-> "hh", p |-> 2, q |-> 3], [k |-> "tt", p |-> -3, q |-> -1]}
 Specs == {[k |-> "sel", key |-> k] : k \in {"gene", "CDS", "misc_feature", "source", "nomatch"}}
          \cup {[k |-> "loc", t |-> Pt(3)], [k |-> "loc", t |-> Rg(2, 6, FALSE, FALSE)], [k |-> "loc", t |-> Cp(Rg(2, 6, FALSE, FALSE))], [k |-> "loc", t |-> Cp(Pt(4))], [k |-> "all"]}
 Locators == ({[x |-> x, m |-> m] : x \in Specs, m \in Mods} \ {[x |-> [k |-> "all"], m |-> None]})
